@@ -562,10 +562,20 @@ where
 
         if self.prev_values.is_empty() {
             self.save_state = self.state.clone();
-            if self.time.real() + self.dt.real() * self.order.real() >= self.end.real() {
+            let shortened =
+                self.time.real() + self.dt.real() * self.order.real() >= self.end.real();
+            if shortened {
                 self.dt = (self.end - self.time) / self.order;
             }
             self.runge_kutta(O)?;
+            if shortened {
+                // The steps were sized to end on the end time: do not let the
+                // round-off of adding them up move the last one off of it
+                self.time = self.end;
+                if let Some(last) = self.prev_values.back_mut() {
+                    last.0 = self.end.real();
+                }
+            }
             self.yield_memory = O + 1;
 
             return Err(IVPStatus::Redo);
